@@ -91,7 +91,7 @@ func genConfigText(g *G) (text, class, tag string) {
 	p0 := pools[0].(map[string]interface{})
 	k := g.intn(100)
 	switch {
-	case g.rare(6, 0.01):
+	case g.rare(3, 0.01):
 		r := g.pick("255.255.255.250~255.255.255.255", "255.255.255.255", "255.255.255.2~255.255.255.255")
 		return mustJSON([]interface{}{map[string]interface{}{"nodeSubnets": []string{"10.250.0.0/24"}, "ips": []string{r},
 			"subnet": "255.255.255.0/24", "gateway": "255.255.255.1"}}), "range-ending-255.255.255.255", "range-ending-255.255.255.255"
